@@ -456,3 +456,8 @@ def run(prog, chk):
                   "on a path that leaves with the kind still set", primary=False, floor=5)
     if memrules.dangling_under_kind(prog, r8) < 5:
         raise Broken("kind stores vanished")
+
+    r9 = chk.rule("R9-declaration-parameter-names", "no function is declared with two parameters named in the opposite order from its "
+                  "definition (all units)", primary=False, floor=200)
+    if memrules.declaration_parameter_agreement(prog, r9) < 200:
+        raise Broken("fewer than 200 declaration/definition pairs")
